@@ -20,15 +20,22 @@ fn strip_quotes(key: &str) -> &str {
 }
 
 /// AltA: objects as an association list, one number type
-#[derive(Clone, Debug, PartialEq, Default)]
+#[derive(Clone, Debug, PartialEq)]
 pub enum AltA {
-    #[default]
     Null,
     Bool(bool),
     Num(f64, bool),
     Str(String),
     Arr(Vec<AltA>),
     Obj(Vec<(String, AltA)>),
+}
+
+/// `Default` is a bound of the trait, not an accessor: nothing says it is JSON null, and the three views choose three
+/// different non-null defaults (an empty object, the number 0, the empty string)
+impl Default for AltA {
+    fn default() -> Self {
+        AltA::Obj(vec![])
+    }
 }
 
 impl From<&str> for AltA {
@@ -112,9 +119,8 @@ impl Queryable for AltA {
 }
 
 /// AltB: strict accessors (as_f64 is None for integers, as_i64 is None for floats), objects as parallel vectors
-#[derive(Clone, Debug, PartialEq, Default)]
+#[derive(Clone, Debug, PartialEq)]
 pub enum AltB {
-    #[default]
     Nil,
     B(bool),
     I(i64),
@@ -122,6 +128,12 @@ pub enum AltB {
     S(Box<str>, String),
     A(Vec<AltB>),
     O(Vec<String>, Vec<AltB>),
+}
+
+impl Default for AltB {
+    fn default() -> Self {
+        AltB::I(0)
+    }
 }
 
 impl From<&str> for AltB {
@@ -209,9 +221,8 @@ impl Queryable for AltB {
 #[derive(Clone, Debug, PartialEq, Default)]
 pub struct AltS(pub std::sync::Arc<SNode>);
 
-#[derive(Clone, Debug, PartialEq, Default)]
+#[derive(Clone, Debug, PartialEq)]
 pub enum SNode {
-    #[default]
     Null,
     Bool(bool),
     Int(i64),
@@ -219,6 +230,12 @@ pub enum SNode {
     Str(String),
     Arr(Vec<AltS>),
     Obj(Vec<(String, AltS)>),
+}
+
+impl Default for SNode {
+    fn default() -> Self {
+        SNode::Str(String::new())
+    }
 }
 
 impl From<&str> for AltS {
@@ -633,7 +650,7 @@ pub fn run(tier: &str) -> i32 {
         .reduce(Acc::new, Acc::merge);
     run.finish(
         a.merge(b).merge(c),
-        "one case = (query, document) evaluated in lock-step at several implementations of Queryable: serde_json::Value, AltS (hash-consed: equal sub-documents share storage), AltA (objects as association lists, a single float-backed number type that still answers as_i64 for integers) and AltB (strict accessors: as_f64 is None for integers and as_i64 is None for floats; objects as parallel vectors), each converted from the same JSON value preserving member order; oracle: identical path lists and identical values (serialized) ; spaces: the generated sentence set x document panel, the comparison table packed into one document, the slice cube; non-trivial = the Value evaluation selects at least one node",
+        "one case = (query, document) evaluated in lock-step at several implementations of Queryable: serde_json::Value, AltS (hash-consed: equal sub-documents share storage), each with a different non-null `Default`; AltA (objects as association lists, a single float-backed number type that still answers as_i64 for integers) and AltB (strict accessors: as_f64 is None for integers and as_i64 is None for floats; objects as parallel vectors), each converted from the same JSON value preserving member order; oracle: identical path lists and identical values (serialized) ; spaces: the generated sentence set x document panel, the comparison table packed into one document, the slice cube; non-trivial = the Value evaluation selects at least one node",
         &["`Queryable::get` strips the enclosing quotes of the key exactly as the implementation for serde_json::Value does (the trait documentation leaves that to the implementor)", "the extension functions of C14 are defined for serde_json::Value only and are not part of this check"],
         true,
         json!({"panel_documents": docs.len(), "sentences": sents.len()}),
